@@ -274,6 +274,9 @@ class Weaver:
                     raise ex.ExtractError('%s: loop %d not present (%d loops)' % (qual, k, len(heads)))
                 pos = heads[k - 1] + 1
                 # skip the R1 prologue `let P = P__; P__ += 1;`
+                mm0 = re.match(r'\s*let\s+\w+\s*=\s*drained__\.remove\(0\);', body[pos:])
+                if mm0:
+                    pos += mm0.end()
                 mm = re.match(r'\s*let\s+(\w+)\s*=\s*(\w+)__;\s*\2__\s*\+=\s*1;', body[pos:])
                 if mm:
                     pos += mm.end()
